@@ -4,6 +4,7 @@ import (
 	"bytes"
 	"errors"
 	"fmt"
+	"github.com/pascaldekloe/mqtt/verifsim"
 	"sort"
 	"strings"
 	"testing"
@@ -20,7 +21,8 @@ import (
 // interleavings of 1-3 calling tasks at the yields inserted into mqtttest.
 
 type recTB struct {
-	testing.TB // nil: only the methods below may be called
+	testing.TB      // nil: only the methods below may be called
+	s          *Sim // when set: reporting is a scheduling point (a real testing.T locks and formats; callers overlap there)
 	errors     []string
 	fatals     []string
 	cleanups   []func()
@@ -28,11 +30,19 @@ type recTB struct {
 
 type tbFatal struct{}
 
-func (r *recTB) Helper() {}
+func (r *recTB) yield() {
+	if r.s != nil && !r.s.dead {
+		if _, task := r.s.names[verifsim.Goid()]; task {
+			r.s.Pause("tb") // only tasks park: the constructor runs on the scheduler's goroutine
+		}
+	}
+}
+func (r *recTB) Helper() { r.yield() }
 func (r *recTB) Errorf(format string, a ...any) {
+	r.yield()
 	r.errors = append(r.errors, fmt.Sprintf(format, a...))
 }
-func (r *recTB) Error(a ...any) { r.errors = append(r.errors, fmt.Sprint(a...)) }
+func (r *recTB) Error(a ...any) { r.yield(); r.errors = append(r.errors, fmt.Sprint(a...)) }
 func (r *recTB) Fatalf(format string, a ...any) {
 	r.fatals = append(r.fatals, fmt.Sprintf(format, a...))
 	panic(tbFatal{})
@@ -82,6 +92,7 @@ func famC20Publish(w *World, spec *RunSpec, res *RunResult) {
 	}
 	var calls []*mockCall
 	RunBubble(w, func(s *Sim) {
+		tb.s = s
 		mock := mqtttest.NewPublishMock(tb, want...)
 		ntasks := 1 + t.Draw("ntasks", 3)
 		ncalls := t.Draw("ncalls", nwant+3)
@@ -131,10 +142,12 @@ func famC20Publish(w *World, spec *RunSpec, res *RunResult) {
 			})
 		}
 	})
+	tb.s = nil
 	tb.runCleanups()
 	// reference model
 	wantErrors := 0
 	consumed := 0
+	pubUsed := map[int]bool{}
 	for _, c := range calls {
 		if c.panicV != nil {
 			w.Violate("C20", "mock-panic", "publish", "the publish mock panicked: %v", c.panicV)
@@ -161,6 +174,11 @@ func famC20Publish(w *World, spec *RunSpec, res *RunResult) {
 			wantErrors++
 			continue
 		}
+		if pubUsed[idx] {
+			w.Violate("C20", "expectation-consumed-twice", "publish", "expectations %v: expectation %d was applied to two invocations", want, idx)
+			return
+		}
+		pubUsed[idx] = true
 		if !bytes.Equal(c.msg, want[idx].Message) || c.topic != want[idx].Topic {
 			wantErrors++
 			w.Probe("deviation_generated")
@@ -229,6 +247,7 @@ func famC20Subscribe(w *World, spec *RunSpec, res *RunResult) {
 	}
 	var calls []*mockCall
 	RunBubble(w, func(s *Sim) {
+		tb.s = s
 		var mock func(quit <-chan struct{}, topicFilters ...string) error
 		if unsub {
 			mock = mqtttest.NewUnsubscribeMock(tb, want...)
@@ -298,12 +317,14 @@ func famC20Subscribe(w *World, spec *RunSpec, res *RunResult) {
 			})
 		}
 	})
+	tb.s = nil
 	tb.runCleanups()
 	name := "subscribe"
 	if unsub {
 		name = "unsubscribe"
 	}
 	wantErrors, consumed := 0, 0
+	usedBy := map[int]*mockCall{}
 	for _, c := range calls {
 		if c.panicV != nil {
 			w.Violate("C20", "mock-panic", name, "expectations %v, calls %s: the %s mock panicked: %v", want, fmtCalls(calls), name, c.panicV)
@@ -326,6 +347,13 @@ func famC20Subscribe(w *World, spec *RunSpec, res *RunResult) {
 			wantErrors++
 			continue
 		}
+		if usedBy[idx] != nil {
+			// each expectation is met by one invocation: in-order
+			// consumption is what "the number of calls" rests on
+			w.Violate("C20", "expectation-consumed-twice", name, "expectations %v, calls %s: expectation %d was applied to two invocations", want, fmtCalls(calls), idx)
+			return
+		}
+		usedBy[idx] = c
 		a := append([]string{}, c.filters...)
 		b := append([]string{}, want[idx].Topics...)
 		sort.Strings(a)
@@ -448,6 +476,16 @@ func famC20Stubs(w *World, spec *RunSpec, res *RunResult) {
 			}
 			m2, t2, _ := rs()
 			if string(m2) != "payload" || string(t2) != "topic" || string(fix.Message) != "payload" {
+				copyOK = false
+			}
+			// the slices of the first call are still the caller's
+			if string(m1) != "Xayload" || string(t1) != "Xopic" {
+				copyOK = false
+			}
+			if len(m2) > 0 {
+				m2[0] = 'Y'
+			}
+			if string(m1) != "Xayload" {
 				copyOK = false
 			}
 		})
